@@ -526,7 +526,23 @@ class Parser:
         return target
 
     def parse_document(self) -> Document:
-        """Parse a complete OCTAVE document."""
+        """Parse a complete OCTAVE document.
+
+        Indentation nesting (blocks, sections) has no bracket-style depth counter; when it is
+        deeper than the interpreter's stack allows, the document is refused with a ParserError
+        instead of letting RecursionError escape the reader.
+        """
+        try:
+            return self._parse_document()
+        except RecursionError as exc:
+            raise ParserError(
+                "Maximum nesting depth exceeded (blocks/sections nested too deeply)",
+                None,
+                "E_MAX_NESTING_EXCEEDED",
+            ) from exc
+
+    def _parse_document(self) -> Document:
+        """Parse a complete OCTAVE document (body of parse_document)."""
         doc = Document()
         # Comments above the envelope are kept: they are carried to the first body node
         # (skipping them lost them without a receipt).
